@@ -15,3 +15,53 @@ Definition recip_case (t : tree) (sender : N) (excl : list N) (expected : list N
   | Ok rs => if same_multiset (concat (map snd rs)) expected then 0 else 1
   | _ => 2
   end.
+
+(* ---- private-key positions (C09) ---- *)
+From MlsV Require Import Priv.
+
+Definition pat (pr : priv) : list bool := map (fun o => match o with Some _ => true | None => false end) pr.
+Fixpoint strip_false_rev (l : list bool) : list bool := match l with false :: r => strip_false_rev r | _ => l end.
+Definition strip (l : list bool) : list bool := rev (strip_false_rev (rev l)).
+Definition same_pattern (a b : list bool) : bool :=
+  let a := strip a in let b := strip b in
+  (N.of_nat (length a) =? N.of_nat (length b)) && forallb (fun p : bool * bool => Bool.eqb (fst p) (snd p)) (combine a b).
+Definition of_pat (l : list bool) : priv := map (fun b : bool => if b then Some 7 else None) l.
+
+Definition lift_t {A} (r : tres A) : res A := match r with TOk a => Ok a | _ => Panic end.
+
+(* role 0: receiver, 1: committer.  0 = the model predicts the observed key positions,
+   1 = different, 2 = the model fails *)
+Definition priv_case (t : tree) (removes : list N) (updates : list (N * N)) (adds : list N)
+           (path : option (N * N)) (role : N) (me : N) (own_update : bool)
+           (before after : list bool) : N :=
+  match
+    bind (lift_t (batch_edit t removes updates adds)) (fun '(tprov, added) =>
+    bind (provisional_priv tprov me (of_pat before) (if own_update then Some 9 else None)) (fun pr1 =>
+      match path with
+      | None => ret pr1
+      | Some (snd, _) =>
+          bind (filtered tprov snd) (fun flt =>
+          bind (path_nodes tprov me) (fun p =>
+            let fk := fun k => 100 + k in
+            if role =? 1 then ret (encap_priv pr1 (length p) flt fk 8)
+            else bind (leaf_lca_level (2 * me) (2 * snd)) (fun k =>
+                 ret (decap_priv pr1 (length p) (N.to_nat (k - 2)) (upd_nodes flt 1 fk)))))
+      end))
+  with
+  | Ok pr => if same_pattern (pat pr) after then 0 else 1
+  | _ => 2
+  end.
+
+(* a joiner through a Welcome: tree of the new epoch, own leaf, committer's leaf *)
+Definition join_case (t : tree) (me signer : N) (with_path : bool) (after : list bool) : N :=
+  match
+    (if with_path then
+      bind (filtered t me) (fun jflt =>
+      bind (leaf_lca_level (2 * me) (2 * signer)) (fun k =>
+        let ks := fun i => match get t i with Some _ => Some 1 | None => None end in
+        match join_priv ks me 8 jflt (N.to_nat (k - 2)) with Some pr => ret pr | None => Panic end))
+    else ret [Some 8])
+  with
+  | Ok pr => if same_pattern (pat pr) after then 0 else 1
+  | _ => 2
+  end.
